@@ -25,6 +25,43 @@ pub const SUBS: &[SubDef] = &[SubDef { prop: "C14", name: "lists", oracle: lists
 fn run(ctx: &Ctx) {
     ctx.run_tape("lists", lists, ctx.pick(120_000, 400_000), 400);
     ctx.run_tape("overlong", overlong, ctx.pick(120_000, 400_000), 400);
+    // the largest entries and lists the u16 length fields can state: entry lengths 65531..65535 through the single-SCT parser (such an
+    // entry cannot sit in a list: the list's own u16 also counts the entry's two length bytes), list lengths 65531..65535 through the list parser
+    ctx.run_fn("max_fill", true, "single entries of 65531..65535 bytes (signature or extensions filling the rest) and lists of exactly 65531..65535 bytes", |obs| {
+        for total in 65531usize..=65535 {
+            for big_ext in [false, true] {
+                obs.evals_add(2);
+                // entry content = 1 + 32 + 8 + 2 + ext + 1 + 1 + 2 + sig = 47 + ext + sig
+                let (ext, sig) = if big_ext { (total - 47 - 70, 70) } else { (3, total - 47 - 3) };
+                let m = MSct { version: 0, id: vec![0x11; 32], timestamp: 0x0123_4567_89ab_cdef, extensions: vec![0xe1; ext], hash: 4, sign: 3, alg_present: true, signature: vec![0x5a; sig] };
+                let mut e = vmodel::wire::Enc::new();
+                m.encode(&mut e);
+                let mut buf = e.buf.clone();
+                ensure!(buf.len() == 2 + total, "harness:c14-max-fill", "entry encodes to {} bytes, wanted {}", buf.len(), 2 + total);
+                buf.extend_from_slice(&[0xde, 0xad]);
+                let r = guard("parse_ct_signed_certificate_timestamp", || match parse_ct_signed_certificate_timestamp(&buf) {
+                    Ok((rem, s)) => Ok((rem.len(), conv::sct(&s))),
+                    Err(e) => Err(format!("{:?}", e.map(|x| x.code))),
+                })?;
+                match r {
+                    Ok((rl, got)) => ensure!(got == m && rl == 2, "C14:max-fill:single-value", "an entry of {} bytes: decoded value differs or {} bytes left (expected 2)", total, rl),
+                    Err(e) => return fail("C14:max-fill:single-rejected", format!("a well-formed entry whose length field is {} (extensions {} bytes, signature {} bytes) was rejected by the single-SCT parser with {}", total, ext, sig, e)),
+                }
+                // a list of exactly `total` bytes: one entry of total - 2 bytes
+                let (ext, sig) = if big_ext { (total - 2 - 47 - 70, 70) } else { (3, total - 2 - 47 - 3) };
+                let l = vec![MSct { version: 0, id: vec![0x22; 32], timestamp: 7, extensions: vec![0xe2; ext], hash: 8, sign: 7, alg_present: true, signature: vec![0xa5; sig] }];
+                let enc = encode_sct_list(&l).buf;
+                ensure!(enc.len() == 2 + total, "harness:c14-max-fill", "list encodes to {} bytes, wanted {}", enc.len(), 2 + total);
+                match call_list(&enc)? {
+                    Ok((_, rl, v)) => ensure!(v == l && rl == 0, "C14:max-fill:list-value", "a list of {} bytes: decoded {} SCT(s), {} bytes left", total, v.len(), rl),
+                    Err(e) => return fail("C14:max-fill:list-rejected", format!("a well-formed list whose length field is {} was rejected with {}", total, e)),
+                }
+                obs.nontrivial(total as u64 * 2 + big_ext as u64);
+            }
+        }
+        obs.sample(json!({"entry_and_list_lengths": "65531..=65535", "filled_by": ["signature", "extensions"]}));
+        Ok(())
+    });
     // "for every list": whatever the size of the buffer the list sits in. Lists at the start of buffers of 10 MiB +- 1, 16 MiB + 3 and
     // 2^32 + k bytes (zero pages, never touched), through the list parser and the single-SCT parser
     let seed = ctx.seed;
